@@ -84,3 +84,52 @@ def strip_bvll(data):
     if len(data) >= 4 and data[0] == 0x81 and data[1] in (0x0A, 0x0B):
         return data[4:]
     return None
+
+
+# ---------------------------------------------------------------- DeviceCommunicationControl (clause 16.1)
+# The one service by which a device may rightfully fall silent.  dcc_effect says what a frame does to the
+# communication state: ("none",) nothing or enable / disable-initiation / an undefined or absent enable-disable value
+# (none of which the standard lets silence a device), ("disable", minutes) a request that disables it (minutes 0 =
+# until told otherwise), ("maybe",) anything that could be read as such a request by a more lenient parser than this
+# one - the caller then does not insist on replies until communication has been enabled again.
+
+def _ctx_tags(data):
+    """Strict context-tag scan of DCC service data -> [(number, content)] or None."""
+    out, p = [], 0
+    while p < len(data):
+        b = data[p]
+        p += 1
+        if not (b & 0x08) or (b >> 4) == 15 or (b & 7) in (5, 6, 7):
+            return None
+        n = b & 7
+        if p + n > len(data) or n == 0:
+            return None
+        out.append((b >> 4, data[p:p + n]))
+        p += n
+    return out
+
+
+def dcc_effect(data, level):
+    cls = classify(data, level)
+    hit = b"\x11" in data and b"\x01" in data
+    if not cls["judged"]:
+        return ("maybe",) if hit else ("none",)
+    if cls["service"] != 17:
+        return ("none",)
+    # service data: everything after the 4 header octets of the APDU, which ends the frame
+    apdu_at = None
+    for p in range(len(data) - 3):
+        if data[p + 2] == cls["invoke"] and data[p + 3] == 17 and (data[p] >> 4) == 0:
+            apdu_at = p
+            break
+    if apdu_at is None:
+        return ("maybe",) if hit else ("none",)
+    body = data[apdu_at + 4:]
+    tags = _ctx_tags(body)
+    if tags is None or [n for n, _ in tags] != sorted(set(n for n, _ in tags)) or any(n > 2 for n, _ in tags) \
+            or any(len(c) > 4 for n, c in tags if n < 2):
+        return ("maybe",) if b"\x01" in body else ("none",)
+    fields = dict(tags)
+    if 1 not in fields or int.from_bytes(fields[1], "big") != 1:
+        return ("none",)
+    return ("disable", int.from_bytes(fields.get(0, b"\x00"), "big"))
